@@ -270,6 +270,28 @@ pub fn subs_for(id: &str) -> Vec<Sub> {
         "C07" => vec![sub(
             lp(
                 "C07",
+                "c07-layout-big-inner",
+                "batches with large inner builders (up to 16 inner registrations with up to 6 reads each, barriers inside the batch 3/16): inner groups whose accumulated access lists exceed the inline capacities, sealed by inner barriers",
+                GenCfg {
+                    max_ops: 8,
+                    max_inner_ops: 16,
+                    p_batch: 5,
+                    p_barrier: 3,
+                    max_reads: 6,
+                    max_writes: 2,
+                    universe_max: 14,
+                    max_depth: 2,
+                    tl_in_batch_access: false,
+                    ..GenCfg::default()
+                },
+                1200,
+                p_layout::o_c07,
+            ),
+            60_000,
+            1_500_000,
+        ), sub(
+            lp(
+                "C07",
                 "c07-layout",
                 "outer plans with batches (3/16 of the ops, nesting <= 3, controller declarations from 13 static shapes incl. (), read-only, write-only, mixed; custom controllers dispatching 0..3 times and shred's MultiDispatcher); the batch's access is computed by the harness itself as the union of the controller declaration and every ordinary system inside at any depth; oracle A: isolation, dependency, barrier and no-needless-serialisation predicates on the outer executed layout with that union, and the same predicates recursively on every inner layout; non-trivial = an outer system that conflicts with a batch only through an inner system or only through the controller's declared data",
                 GenCfg {
@@ -419,6 +441,28 @@ pub fn subs_for(id: &str) -> Vec<Sub> {
             sub(
                 lp(
                     "C10",
+                    "c10-layout-long",
+                    "long class: up to 150 registrations per builder (system ids beyond 64 and 128), dependencies on late systems, barriers",
+                    GenCfg {
+                        max_ops: 150,
+                        universe_max: 10,
+                        max_reads: 2,
+                        max_writes: 1,
+                        p_dep: 6,
+                        max_deps: 3,
+                        p_batch: 0,
+                        p_static: 0,
+                        ..GenCfg::default()
+                    },
+                    2500,
+                    p_layout::o_c10,
+                ),
+                6_000,
+                150_000,
+            ),
+            sub(
+                lp(
+                    "C10",
                     "c10-layout-wide",
                     "wide class: up to 30 systems over up to 28 resources with up to 5 reads each and dependency lists of up to 7 names, so that stages exceed every inline capacity (more than 6 groups, more than 12 accumulated reads, more than 4 dependencies)",
                     wide_cfg(),
@@ -445,7 +489,7 @@ pub fn subs_for(id: &str) -> Vec<Sub> {
                 LayoutProp {
                     property: "C10",
                     name: "c10-layout-deps",
-                    rule: "dependency-heavy, conflict-light plans (deps on 3/4 of the systems, up to 4 names each, duplicates allowed, barriers 1/8)",
+                    rule: "dependency-heavy, conflict-light plans (deps on 3/4 of the systems, up to 4 names each, duplicates allowed, barriers 1/8, and rejected duplicate-name registration attempts that the caller catches before going on, 1/16)",
                     cfg: GenCfg {
                         p_dep: 12,
                         max_deps: 4,
@@ -457,6 +501,7 @@ pub fn subs_for(id: &str) -> Vec<Sub> {
                         p_batch: 0,
                         p_tl: 0,
                         p_unnamed: 1,
+                        p_rejected: 1,
                         ..GenCfg::default()
                     },
                     stream_len: 400,
